@@ -1344,7 +1344,10 @@ Inductive Hist (kl any : bool) : state -> Prop :=
 | H_reopen st : any = true -> Hist kl any st ->
     Hist kl any (fst (step succ subject manifest cfg_fixed kl st OReopen))
 | H_foreign st : any = true -> Hist kl any st ->
-    Hist kl any (fst (step succ subject manifest cfg_fixed kl st OForeign)).
+    Hist kl any (fst (step succ subject manifest cfg_fixed kl st OForeign))
+| H_gc_cancel st ords order k : any = true -> Hist kl any st ->
+    (forall i n, In n (ords i) <-> In n (candidates (idx st))) ->
+    Hist kl any (fst (gc_cancel succ subject manifest cfg_fixed kl ords order k st)).
 
 Lemma gc_wf kl ords st : (forall i n, In n (ords i) <-> In n (candidates (idx st))) ->
   wf (fst (gc succ subject manifest cfg_fixed kl ords st)).
@@ -1365,7 +1368,9 @@ Qed.
 
 Lemma hist_wf kl any st : Hist kl any st -> wf st.
 Proof.
-  induction 1 as [|st o _ IH _|st n ord _ IH _|st ords _ IH Ho|st ords _ IH Ho|st _ _ IH|st _ _ IH].
+  induction 1 as [|st o _ IH _|st n ord _ IH _|st ords _ IH Ho|st ords _ IH Ho|st _ _ IH|st _ _ IH|st ords order k _ _ IH Ho].
+  8: { destruct (gc_cancel_spec kl ords order k st Ho) as (sc & Ec & _ & _ & Hg & Hb & _). rewrite Ec. cbn [fst].
+       intros y Hy. apply Hg in Hy. apply Hb. split; [eapply Live_in; eauto|now left]. }
   - intros y [].
   - now apply step_wf.
   - unfold delete. now apply delete_loop_wf.
@@ -1377,7 +1382,7 @@ Qed.
 
 Lemma hist_full kl st : Hist kl false st -> full st.
 Proof.
-  induction 1 as [|st o _ IH Ho|st n ord _ IH _|st ords _ IH Ho|st ords _ IH Ho|st Hf _ _|st Hf _ _]; try discriminate.
+  induction 1 as [|st o _ IH Ho|st n ord _ IH _|st ords _ IH Ho|st ords _ IH Ho|st Hf _ _|st Hf _ _|st ords order k Hf _ _ _]; try discriminate.
   - intros y [].
   - destruct o as [n|n t|t|n| |b|s| |]; try contradiction; simpl.
     + unfold push. destruct (memb n (blobs st)); [exact IH|]. intros y Hy. simpl in *.
@@ -1399,7 +1404,9 @@ Qed.
 
 Lemma hist_no_stale kl any st : Hist kl any st -> no_stale st.
 Proof.
-  induction 1 as [|st o _ IH _|st n ord _ IH _|st ords _ IH Ho|st ords _ IH Ho|st _ _ IH|st _ _ IH].
+  induction 1 as [|st o _ IH _|st n ord _ IH _|st ords _ IH Ho|st ords _ IH Ho|st _ _ IH|st _ _ IH|st ords order k _ _ IH Ho].
+  8: { destruct (gc_cancel_spec kl ords order k st Ho) as (sc & Ec & Ei & _). rewrite Ec. cbn [fst].
+       intros t n H. rewrite Ei in H. exact (gc_no_stale kl ords st IH t n H). }
   - intros t n [].
   - now apply step_no_stale.
   - unfold delete. now apply delete_loop_no_stale.
